@@ -135,6 +135,13 @@ func (r *vf10Run) finish(sent int64) string {
 	if r.n.Reads(wire.B) > 0 && (first == nil || first.Kind == "w" || first.T.IsZero() || first.ReadsBefore != 0 || !first.T.After(r.t0)) {
 		return fmt.Sprintf("VIOL[c10-socks5-deadline-not-armed]: no non-zero read deadline was set before the first Read (deadline calls %+v)", r.deadlines)
 	}
+	if first != nil && !first.T.IsZero() {
+		for i := range r.deadlines {
+			if d := &r.deadlines[i]; d.Side == wire.B && d.Kind != "w" && !d.T.IsZero() && d.T.After(first.T.Add(2*time.Millisecond)) {
+				return fmt.Sprintf("VIOL[c10-socks5-deadline-slides]: the exchange started under the read deadline %s; after %d reads the deadline was moved to %s (%v later): every piece of input pushes the timeout back", first.T.Format("15:04:05.000000"), d.ReadsBefore, d.T.Format("15:04:05.000000"), d.T.Sub(first.T))
+			}
+		}
+	}
 	if r.err == nil {
 		if r.req == nil {
 			return "VIOL[c10-socks5-no-result]: Handshake returned neither a request nor an error"
@@ -382,7 +389,7 @@ func TestVerifC10Socks5Cuts(t *testing.T) {
 		return
 	}
 	c := vf10Ev()
-	c.Rule("socks5-cuts: complete enumeration over 16 valid exchanges ({no-auth, no-auth with 255 methods, RFC 1929 with 3-byte arguments and NUL password, RFC 1929 with both fields 255 bytes} x {IPv4, IPv6, 1-byte domain, 255-byte domain}) x fault in {EOF, read error, client silent + armed deadline fired} at every client byte offset 0..N, plus a write error at every offset of the server's replies, x delivery in {bytewise, whole messages}; the client is step-by-step; oracle: no panic, Handshake is done at quiescence after the fault (no timeout involved), error unless the fault lies behind the last byte (then exactly the request), bytes read <= offered and <= 8192, bytes written <= 64, no unread/unflushed buffer content and 4096-byte buffers on success, deadline armed before the first Read and zero as the last call on success; non-trivial = fault behind the method-selection message; distinct by construction")
+	c.Rule("socks5-cuts: complete enumeration over 16 valid exchanges ({no-auth, no-auth with 255 methods, RFC 1929 with 3-byte arguments and NUL password, RFC 1929 with both fields 255 bytes} x {IPv4, IPv6, 1-byte domain, 255-byte domain}) x fault in {EOF, read error, client silent + armed deadline fired} at every client byte offset 0..N, plus a write error at every offset of the server's replies, x delivery in {bytewise, whole messages}; the client is step-by-step; oracle: no panic, Handshake is done at quiescence after the fault (no timeout involved), error unless the fault lies behind the last byte (then exactly the request), bytes read <= offered and <= 8192, bytes written <= 64, no unread/unflushed buffer content and 4096-byte buffers on success, deadline armed before the first Read, never moved later during the exchange, and zero as the last call on success; non-trivial = fault behind the method-selection message; distinct by construction")
 	c.Assume("socks5: a case in which more than 4 s of real time passed is discarded (the wire also honours the real clock; the real 5 s handshake deadline may have interfered)")
 	shard, nshards := ev.IntEnv("VERIF_SHARD", 0), ev.IntEnv("VERIF_NSHARDS", 1)
 	idx := 0
